@@ -351,6 +351,15 @@ def gen_tree(d, i, r, mode):
     for f in files:
         with open(root + '/' + f, 'w') as fh:
             fh.write(C.toml_dumps(content[f]))
+    if use_glob and 'conf.d/*.toml' in includes['main.toml'] and r.random() < 0.4:
+        # the conf-available / conf-enabled layout: a file matched by the glob is a symbolic link to the real one
+        leaves = [f for f in files[1:] if f.startswith('conf.d/') and not includes[f]]
+        if leaves:
+            f = r.choice(leaves)
+            os.makedirs(root + '/conf-available', exist_ok=True)
+            os.rename(root + '/' + f, root + '/conf-available/' + os.path.basename(f))
+            os.symlink('../conf-available/' + os.path.basename(f), root + '/' + f)
+            desc['extras'] = desc['extras'] + ['symlinked-in-glob']
     return root + '/main.toml', desc
 
 
@@ -376,6 +385,17 @@ def presence_trees(d, base_i, r):
         open(root + '/main.toml', 'w').write(C.toml_dumps(cfg))
         out.append((root + '/main.toml', {'mode': 'presence', 'levels': lv}))
         i += 1
+        if not lv['global']:
+            # the same without any [global] table at all: the built-in defaults apply (the directories too: these trees are loaded in a
+            # private mount namespace with a scratch file system over the default state directory)
+            root2 = '%s/t%d' % (d, i)
+            os.makedirs(root2)
+            c2 = dict(c)
+            c2.pop('directory', None)
+            cfg2 = {'endpoint': [e], 'account': [{'name': 'a', 'contacts': [{'mailto': 'a@example.org'}]}], 'certificate': [c2]}
+            open(root2 + '/main.toml', 'w').write(C.toml_dumps(cfg2))
+            out.append((root2 + '/main.toml', {'mode': 'presence', 'levels': lv, 'no_global': True}))
+            i += 1
     return out
 
 
@@ -392,10 +412,22 @@ def run(tier):
             trees.append(gen_tree(d, i, r, mode))
         trees += presence_trees(d, n, r)
         cli_roots = ['/nonexistent/cli-root.pem']
-        reqs = [{'config': m, 'root_certs': cli_roots} for m, _ in trees]
+        reqs = [{'config': m, 'root_certs': cli_roots} for m, dsc in trees if not dsc.get('no_global')]
         rc, recs, err = C.probe('cfgdump', reqs, timeout=3600, cwd=d)
         if rc != 0:
             raise C.Inconclusive('cfgdump probe failed rc=%s: %s' % (rc, err[-400:]))
+        reqs2 = [{'config': m, 'root_certs': cli_roots} for m, dsc in trees if dsc.get('no_global')]
+        import subprocess
+        if reqs2 and subprocess.run(['unshare', '-m', 'true'], stdout=subprocess.DEVNULL, stderr=subprocess.DEVNULL).returncode == 0:
+            rc2_, recs2, err2 = C.probe('cfgdump', reqs2, timeout=600, cwd=d,
+                                        prefix=['unshare', '-m', 'sh', '-c', 'mount -t tmpfs tmpfs /var/lib && exec "$@"', 'sh'])
+            if rc2_ == 0:
+                recs = recs + recs2
+            else:
+                chk.inconclusive.append('trees without a [global] table could not be loaded in a private namespace: %s' % err2[-200:])
+                trees = [t for t in trees if not t[1].get('no_global')]
+        else:
+            trees = [t for t in trees if not t[1].get('no_global')]
         res = {rec['config']: rec for rec in recs if not rec.get('begin')}
         for main, desc in trees:
             rec = res.get(main)
@@ -433,6 +465,8 @@ def run(tier):
             for cid, w in want.items():
                 o = got[cid]
                 for k, v in w.items():
+                    if desc.get('no_global') and k in ('crt_directory', 'account_directory'):
+                        continue      # build-time defaults, not part of the documented resolution
                     if k == 'hooks':
                         # both views must be sub-sequences of the expected expansion, in order
                         for view in ('hooks_cert', 'hooks_file'):
@@ -463,7 +497,7 @@ def run(tier):
         rc2 = None
     chk.rule = ('random configuration trees (1-6 files, include depth <= 3, relative/absolute paths, globs, duplicate and cyclic includes), '
                 'sections scattered over the files, each of the 15 global options set in main / one included / both / two included files, '
-                'three-level settings in every presence pattern, dangling references and duplicate ids; distinct = (mode, include extras, '
+                'three-level settings in every presence pattern (with an empty [global] table and with none at all), dangling references and duplicate ids; distinct = (mode, include extras, '
                 'where each global option is set) patterns compared')
     chk.assumptions = ['oracle: tomllib + the merge rules of acmed.toml(5); glob expansion sorted alphabetically',
                        'env / root_certificates only generated where replace and merge semantics agree']
